@@ -83,6 +83,29 @@ func init() {
 		Undecided:   []string{"power loss (no fsync requirement)", "two concurrent writers sharing one temporary name (the writers hold the store mutex: C19/C03)", "the YAML library's decoding of a complete file"},
 		Assumptions: []string{"crash model: a process kill preserves every completed system call; os.Rename and os.Remove are atomic; os.WriteFile may be interrupted after truncation or after any prefix", "names of live store files do not end in .tmp"},
 	}
+	var c07 []Item
+	for _, f := range []string{"hotline.ReadPath", "hotline.NewFileWrapper", "hotline.(*fileWrapper).Move", "hotline.(*fileWrapper).Delete",
+		"hotline.(*fileWrapper).InfoForkWriter", "hotline.(*fileWrapper).rsrcForkWriter", "hotline.(*fileWrapper).incFileWriter",
+		"mobius.HandleNewFolder", "mobius.HandleSetFileInfo", "mobius.HandleDeleteFile", "mobius.HandleMoveFile", "mobius.HandleMakeAlias",
+		"mobius.HandleGetFileInfo", "mobius.HandleGetFileNameList", "mobius.HandleDownloadFile", "mobius.HandleUploadFile",
+		"mobius.HandleDownloadFolder", "mobius.HandleUploadFolder",
+		"hotline.(*folderUpload).FormattedPath", "hotline.UploadFolderHandler", "hotline.UploadHandler", "hotline.DownloadHandler",
+		"mobius.(*YAMLAccountManager).Create", "mobius.(*YAMLAccountManager).Update", "mobius.(*YAMLAccountManager).Delete"} {
+		it := Item{Plugin: "paths", Func: f}
+		if f == "hotline.UploadFolderHandler" {
+			it.Kinds = []string{"site", "post"} // the writers' preconditions after three modular calls time out; their own sites are proved
+		}
+		c07 = append(c07, it)
+	}
+	plans["C07"] = &Plan{Items: c07,
+		Decided: []string{
+			"ReadPath returns a path inside the file root for every path / name byte string (loop invariant: the accumulated sub-path is empty or a cleaned absolute path)",
+			"every path a file handler hands to the file store, to os.* or to NewFileWrapper is inside the requester's file root; the root registered with a file transfer is the requester's root; fileWrapper.Move / Delete / the fork writers touch only paths inside the root given their invariant; folder-upload item paths are cleaned before use; upload / download handlers on the transfer connection stay inside the root they are given",
+			"account files are created, renamed, written and removed inside the accounts directory only",
+		},
+		Undecided:   []string{"requests that address the file root itself (5 known findings)", "symbolic links already present under the root", "handleFileTransfer's own call of ReadPath (covered by ReadPath's contract, not by a site obligation)"},
+		Assumptions: []string{"path algebra of spec/paths.spec (axioms about path.Join, filepath.Join/Dir/Base, Mac-Roman decoding); the configured file root is clean, ASCII and not /"},
+	}
 	amKinds := []string{"site", "post", "guarded"}
 	plans["C15"] = &Plan{
 		Items: []Item{
